@@ -149,6 +149,8 @@ class Explorer:
                     raise Inconclusive("symbolic escape: %s\n%s" % (ex, traceback.format_exc()))
                 except X.PolyOverflow:
                     raise Inconclusive("polynomial overflow")
+                except MemoryError:
+                    raise Inconclusive("memory cap of the worker reached while building terms")
                 except AssertionError as ex:
                     tb = traceback.extract_tb(sys.exc_info()[2])
                     fr = tb[-1]
